@@ -28,6 +28,7 @@ import (
 	"net/http"
 	"os"
 	"regexp"
+	"sort"
 	"strconv"
 	"strings"
 	"sync"
@@ -961,18 +962,31 @@ func (m *lfsModule) handleHTTPUploadComplete(w http.ResponseWriter, r *http.Requ
 		return
 	}
 
+	// The envelope describes every byte received in this session, so the
+	// object must be assembled from every uploaded part exactly once.
+	if len(req.Parts) != len(session.Parts) {
+		m.lfsWriteHTTPError(w, requestID, session.Topic, http.StatusBadRequest, "invalid_part", "completion must list every uploaded part exactly once")
+		return
+	}
 	completed := make([]types.CompletedPart, 0, len(req.Parts))
+	listed := make(map[int32]struct{}, len(req.Parts))
 	for _, part := range req.Parts {
 		etag, ok := session.Parts[part.PartNumber]
 		if !ok || etag == "" || part.ETag == "" || etag != part.ETag {
 			m.lfsWriteHTTPError(w, requestID, session.Topic, http.StatusBadRequest, "invalid_part", "part etag mismatch")
 			return
 		}
+		if _, dup := listed[part.PartNumber]; dup {
+			m.lfsWriteHTTPError(w, requestID, session.Topic, http.StatusBadRequest, "invalid_part", "part listed more than once")
+			return
+		}
+		listed[part.PartNumber] = struct{}{}
 		completed = append(completed, types.CompletedPart{
 			ETag:       aws.String(part.ETag),
 			PartNumber: aws.Int32(part.PartNumber),
 		})
 	}
+	sort.Slice(completed, func(i, j int) bool { return *completed[i].PartNumber < *completed[j].PartNumber })
 
 	if err := m.s3Uploader.CompleteMultipartUpload(r.Context(), session.S3Key, session.UploadID, completed); err != nil {
 		m.metrics.IncS3Errors()
